@@ -81,6 +81,17 @@ CHECKS["C07"] = dict(
          "history_index, TypeError branch after clearing), plain-VI twins, driver-verified gain certificates.",
     technique="Lean 4 induction (ring-buffer invariant with variable modulus, measure = documented formula) + p-step gain bracket + differential runs",
     ref="§8 C07")
+CHECKS["C06"] = dict(
+    text="Theorems: for every partition (batch size x device count), every permutation and EVERY resolution of duplicate scatter targets the "
+         "sweep equals the padding-free block Gauss-Seidel recursion over the same batches (prepared layouts are proved PadTail: a batch with "
+         "padding is followed only by all-padding batches, so padding can never undo an update that is used); one batch per device => the "
+         "synchronous sweep; every fixed point of the Bellman operator is a fixed point of every semi-async sweep and is returned in natural "
+         "order, for every permutation; the k-th permutation is a function of (seed key, k) only under an abstract PRNG. Partial: the converse "
+         "fixed-point direction and the Gauss-Seidel contraction (hence the C01 semi-async bound) are checked on the implementation only. "
+         "Tie: hook-recorded permutations replayed by the model, both collision resolutions, independent python block-GS oracle, permutation "
+         "recomputed from the key with one split, same-seed twins.",
+    technique="Lean 4 proof that the scan-with-scatter model equals padding-free block Gauss-Seidel for all schedules + replay of hook-recorded permutations",
+    ref="§8 C06", note="JAX PRNG abstract; converse fixed point / contraction not yet theorems (partial).")
 PENDING = {}
 
 
